@@ -29,6 +29,8 @@ PREFIXES = ["", "REV__", "rev_", "OBSOLETE__", "OBSOLETE__REV__", "CON__"]
 PEP_GRID = [0.001, 0.01, 0.05]
 PEPTIDES = ["PEPA", "PEPB", "PEPC", "PEPD", "PEPE", "PEPF"]
 SCORE_GRID = [2.0, 1.0, 1.0, 0.5, -100.0]
+WEIRD = ["REREV__V__A", "rev_REV__A", "A_rev_B", "OBSOLETE__rev_A", "CON__REV__A", "", "rerev_v_B", "OBSOLETEOBSOLETE____A",
+         "REV__CON__B", "A;B", "rev_", "OBSOLETE__CON__A"]
 STRATS = [
     ("picked", None),
     ("picked_group", "all"),
@@ -125,11 +127,21 @@ def run_competition(case, seed_override=None, record=True):
         st = competition.ProteinCompetitionStrategyFactory(strat)
 
     orig_shuffle = np.random.shuffle
-    cur = {"shuffles": None, "gid": None, "pass": None}
+    cur = {"shuffles": None, "gid": None, "gcontent": None, "pass": None}
+
+    def lookup(g):
+        """input position of a group object: by identity, else by content if the content is unique in the input"""
+        i = cur["gid"].get(id(g))
+        if i is None:
+            try:
+                i = cur["gcontent"].get(tuple(g))
+            except TypeError:
+                i = None
+        return i
 
     def ident(t):
         try:
-            return cur["gid"].get(id(t[0]))
+            return lookup(t[0])
         except Exception:
             return None
 
@@ -146,7 +158,7 @@ def run_competition(case, seed_override=None, record=True):
 
     def seen_wrapper(proteins):
         if cur["pass"] is not None:
-            cur["pass"].append(cur["gid"].get(id(proteins)))
+            cur["pass"].append(lookup(proteins))
         return inner_seen(proteins)
 
     st._is_protein_seen = seen_wrapper
@@ -164,6 +176,10 @@ def run_competition(case, seed_override=None, record=True):
 
                 scorer = RecordingScorer(ProteinScoringStrategy("bestPEP"))
             cur["gid"] = {id(g): i for i, g in enumerate(groups)}
+            content = {}
+            for i, g in enumerate(groups):
+                content.setdefault(tuple(g), []).append(i)
+            cur["gcontent"] = {k: v[0] for k, v in content.items() if len(v) == 1}
             cur["shuffles"], cur["pass"] = [], []
             try:
                 pg, out_infos, out_scores = st.do_competition(ProteinGroups(groups), infos, scorer)
@@ -173,7 +189,7 @@ def run_competition(case, seed_override=None, record=True):
                     "infos": canon_infos(out_infos),
                     "scores": [rat(float(s)) for s in out_scores],
                 }
-                out_idx = [cur["gid"].get(id(g)) for g in out_groups]
+                out_idx = [lookup(g) for g in out_groups]
             except ValueError as e:
                 if "not enough values to unpack" not in str(e):
                     raise
@@ -320,13 +336,13 @@ def check_call(strategy, picking, call, rec, res):
 
 class P(Prop):
     id = "C02"
-    quick_cases = 1500
-    thorough_cases = 60000
+    quick_cases = 4000
+    thorough_cases = 300000
     chunk = 250
     rule = (
         "1-2 successive do_competition calls on one strategy object; 1-8 groups of 1-3 proteins over the names A-D with "
         "prefixes none/REV__/rev_/OBSOLETE__/OBSOLETE__REV__/CON__ (mostly uniform per group, sometimes mixed, sometimes "
-        "repeated groups), 0-3 evidence tuples each with PEPs from {0.001, 0.01, 0.05} (rarely 1.5, above the 1.01 cutoff), "
+        "repeated groups, 6 % malformed identifiers with nested/inner markers or empty names), 0-3 evidence tuples each with PEPs from {0.001, 0.01, 0.05} (rarely 1.5, above the 1.01 cutoff), "
         "peptide names from a 6-name pool (repeats inside a group occur), protein lists inside or partly outside the group; "
         "scores from the real BestPEPScore or a 4-value table; strategies picked / picked_group(all|majority|leading) / classic; "
         "non-trivial = at least two groups with evidence and (a tie of scores or a group removed by competition); "
@@ -346,6 +362,8 @@ class P(Prop):
         pre = rng.choice(PREFIXES + ["", "REV__"])
         if rng.random() < 0.12:
             return [rng.choice(PREFIXES) + b for b in names]
+        if rng.random() < 0.06:  # markers inside / nested / overlapping: exercises str.replace order and `in`
+            return [rng.choice(WEIRD) for _ in names]
         return [pre + b for b in names]
 
     def gen_evidence(self, rng, group):
@@ -413,7 +431,7 @@ class P(Prop):
             for pep in (0.001, 0.01):
                 opts.append((g, pep))
         out = []
-        for n in (1, 2, 3):
+        for n in (1, 2, 3, 4):
             for combo in itertools.combinations_with_replacement(range(len(opts)), n):
                 groups = [list(opts[i][0]) for i in combo]
                 infos = [[[rat(opts[i][1]), "PEP%d" % k, list(opts[i][0])]] for k, i in enumerate(combo)]
